@@ -59,7 +59,7 @@ func (mp MultiPolygon) op(p2 Polygonal, op polyclip.Op) Polygonal {
 	for _, pp2x := range p2.Polygons() {
 		pp2 = append(pp2, pp2x.toPolyClip()...)
 	}
-	return polyClipToPolygon(pp.Construct(op, pp2))
+	return polyClipToPolygon(pp.Construct(trivialXOr(pp, pp2, op), pp2))
 }
 
 // Polygons returns the polygons that make up mp.
